@@ -2,6 +2,7 @@ import MinterModel.QEval
 import MinterModel.QRlp
 import MinterModel.BancorQ
 import MinterModel.Events
+import MinterModel.Persist
 /-
   Dispatcher over every component's `Q` evaluator.  A component adds one line here.
 -/
@@ -13,5 +14,6 @@ def evalQ (fn : String) (args : List String) : Option String :=
   <|> Rlp.rlpEvalQ fn args
   <|> bancorEvalQ fn args
   <|> eventsEvalQ fn args
+  <|> Persist.persistEvalQ fn args
 
 end Minter
